@@ -220,10 +220,18 @@ impl<F: Write + Seek> Allocator<F> {
     ) -> io::Result<u32> {
         debug_assert_ne!(start_sector_id, consts::END_OF_CHAIN);
         let mut last_sector_id = start_sector_id;
+        // The chain may come from a damaged file that was opened under
+        // permissive validation, so look entries up with bounds checks and
+        // give up if the chain is longer than the FAT (i.e. has a loop).
+        let mut num_steps = 0;
         loop {
-            let next = self.fat[last_sector_id as usize];
+            let next = self.next(last_sector_id)?;
             if next == consts::END_OF_CHAIN {
                 break;
+            }
+            num_steps += 1;
+            if num_steps > self.fat.len() {
+                invalid_data!("Chain contains a loop");
             }
             last_sector_id = next;
         }
